@@ -3,6 +3,7 @@ CONSTANTS
   LineForms <- MC_NoForms
   FirstForms <- MC_NoForms
   MaxLines = 1000
+  MaxBlocks = 1
   AsFound_MarkerTestedOnRawLine = FALSE
   SlotSeq <- MC_SlotSeq
   DescClasses <- MC_DescClasses
@@ -14,6 +15,7 @@ INVARIANT C14_ExactlyOneClass
 INVARIANT C14_MeaningUnchanged
 INVARIANT C14_TimeSupplied
 INVARIANT C14_MalformedReported
+INVARIANT C14_BlockAlone
 INVARIANT C14_DescriptionsInert
 CONSTRAINT Emit
 CHECK_DEADLOCK FALSE
